@@ -62,10 +62,10 @@ def gen_ops(rng, n, knobs, profile="c05"):
     rng.shuffle(fns)
     fns = fns[:rng.choice([2, 3, 4])]
     xs = XS[:rng.choice([2, 3, 4])]
-    w = {"memoize": 5, "get": 2, "gets": 1, "read": 3, "hold": 1.2, "read_held": 1.5, "is": 1.5, "isall": 0.7, "forget_call": 1.2, "forget_fn": 0.7,
+    w = {"memoize": 5, "get": 2, "gets": 1, "read": 3, "hold": 1.2, "read_held": 1.5, "read_own": 1.0, "is": 1.5, "isall": 0.7, "forget_call": 1.2, "forget_fn": 0.7,
          "forget_all": 0.25, "list_fns": 0.5, "list_m": 1, "wmeta": 0.8, "rmeta": 0.8, "restart": 0.7}
     if profile == "c06":
-        w.update({"wmeta": 0, "rmeta": 0, "list_fns": 0, "list_m": 0.6, "memoize": 5, "read": 4, "is": 2, "get": 2, "restart": 0.5})
+        w.update({"wmeta": 0, "rmeta": 0, "list_fns": 0, "read_own": 0, "list_m": 0.6, "memoize": 5, "read": 4, "is": 2, "get": 2, "restart": 0.5})
     if profile == "c07":
         w.update({"memoize": 7, "wmeta": 0.3, "rmeta": 0.3})
     # swarm: knock out / boost some op kinds per run
@@ -77,6 +77,8 @@ def gen_ops(rng, n, knobs, profile="c05"):
             w[k] *= 3
     if knobs["backend"] == "memory":
         w["restart"] = 0
+    if profile == "c19":
+        w["read_own"] = 0
     kinds = [k for k in w if w[k] > 0]
     weights = [w[k] for k in kinds]
     types = ["str"] * 6 + ["bytes", "list", "dict", "df", "arr", "none", "int"]
@@ -103,7 +105,7 @@ def gen_ops(rng, n, knobs, profile="c05"):
             spec = {"t": t, "n": n_, "u": u if rng.random() > 0.12 else rng.randrange(1, 4), "cls": cls}
             ko = OVERRIDE_KEYS[rng.randrange(len(OVERRIDE_KEYS))] if rng.random() < p_over else None
             ops.append(["memoize", fn, x, spec, ko])
-        elif k in ("get", "read", "is", "forget_call", "hold", "read_held"):
+        elif k in ("get", "read", "is", "forget_call", "hold", "read_held", "read_own"):
             ops.append([k, fn, x])
         elif k in ("gets", "isall"):
             m = rng.randrange(1, 4)
@@ -118,6 +120,17 @@ def gen_ops(rng, n, knobs, profile="c05"):
             ops.append([k, fn, x, META_KEYS[rng.randrange(2)]])
         else:
             ops.append([k])
+    if knobs.get("hold") and budget and profile in ("c05", "c07") and rng.random() < 0.2:
+        # a value the caller keeps alive is replaced by one of another size class (fits -> too big for the cache, or the
+        # reverse) and then read with the memento that was written: spread over the history, order kept
+        fn, x, t = fns[rng.randrange(len(fns))], xs[rng.randrange(len(xs))], rng.choice(["arr", "arr", "df"])
+        a, b = rng.choice([("third", "over"), ("third", "over"), ("over", "third"), ("tiny", "exact")])
+        script = [["memoize", fn, x, {"t": t, "n": sc[a], "u": u + 1, "cls": "typed"}, None],
+                  ["memoize", fn, x, {"t": t, "n": sc[b], "u": u + 2, "cls": "typed"}, None],
+                  ["read_own", fn, x]]
+        pos = sorted(rng.randrange(len(ops) + 1) for _ in script)
+        for j, (p_, st) in enumerate(zip(pos, script)):
+            ops.insert(p_ + j, st)
     return ops
 
 
@@ -265,6 +278,7 @@ def run_ops(W, ops, check, emit_log, model=None, ledger=None, lru=None, faults=N
     _est = MemoryCache._estimate_object_size
     W.last_size = {}
     mementos_held = {}
+    own = {}        # the memento object the caller handed to memoize() for the latest write of a key
     epoch = [0]
     held = [] if W.knobs.get("hold") else None   # a caller that keeps every value it ever saw alive
 
@@ -342,6 +356,7 @@ def run_ops(W, ops, check, emit_log, model=None, ledger=None, lru=None, faults=N
                     epoch[0] += 1
                     model.d[(fn, x)] = {"val": clone(val), "meta": meta, "ko": ko, "epoch": epoch[0],
                                         "old": (old.get("old", []) + [old["val"]])[-3:] if old else []}
+                    own[(fn, x)] = (mem, epoch[0])
                     if old:
                         bump("rememoize_live_key")
                     if ko:
@@ -387,6 +402,16 @@ def run_ops(W, ops, check, emit_log, model=None, ledger=None, lru=None, faults=N
                 if h is not None and (fn, x) in model.d and model.d[(fn, x)].get("epoch") == h[1] and (fn, x) not in model.unc:
                     read_check(i, op, fn, x, h[0], clause="read-value-with-held-memento")
                     bump("reads_with_held_memento")
+                    obs = True
+                else:
+                    skipped = True
+            elif k == "read_own":
+                # the result is read with the memento the caller itself passed to memoize() (no look-up in between)
+                _, fn, x = op
+                h = own.get((fn, x))
+                if h is not None and (fn, x) in model.d and model.d[(fn, x)].get("epoch") == h[1] and (fn, x) not in model.unc:
+                    read_check(i, op, fn, x, h[0], clause="read-value-with-written-memento")
+                    bump("reads_with_written_memento")
                     obs = True
                 else:
                     skipped = True
